@@ -138,6 +138,10 @@ func calleeName(cc *ssa.CallCommon) string {
 	case *ssa.Builtin:
 		return f.Name()
 	case *ssa.Function:
+		// func (h Heap[T]) itemAt(i int) T { return h.inner.Item(i) }: a thin forwarder is named after what it forwards to
+		if t := thinForwardTarget(f); t != nil {
+			return funcShort(t)
+		}
 		return funcShort(f)
 	case *ssa.MakeClosure:
 		return funcShort(f.Fn.(*ssa.Function))
@@ -1358,4 +1362,72 @@ func thinGetter(call *ssa.Call) (recv ssa.Value, field string, ok bool) {
 		return nil, "", false
 	}
 	return call.Call.Args[0], fieldName(o.Params[0].Type(), fi), true
+}
+
+var thinForwardMemo = map[*ssa.Function]*ssa.Function{}
+
+// thinForwardTarget: f is an unexported method of the module whose whole body hands its own parameters, in order, to one
+// method of a field of its receiver and returns what that returns (func (h Heap[T]) updateAt(i int, item T) {
+// h.inner.UpdateAt(i, item) }): the method it forwards to, nil otherwise.
+func thinForwardTarget(f *ssa.Function) *ssa.Function {
+	o := origin(f)
+	if o == nil || curCtx == nil {
+		return nil
+	}
+	if t, ok := thinForwardMemo[o]; ok {
+		return t
+	}
+	thinForwardMemo[o] = nil
+	if o.Signature.Recv() == nil || token.IsExported(o.Name()) || len(o.Blocks) != 1 || len(o.Params) == 0 || !curCtx.inModule(o) {
+		return nil
+	}
+	var call *ssa.Call
+	for _, in := range o.Blocks[0].Instrs {
+		switch x := in.(type) {
+		case *ssa.Call:
+			if call != nil {
+				return nil
+			}
+			call = x
+		case *ssa.FieldAddr, *ssa.Field, *ssa.UnOp, *ssa.Extract, *ssa.Return, *ssa.DebugRef, *ssa.Alloc, *ssa.Store:
+		default:
+			return nil
+		}
+	}
+	if call == nil || call.Call.IsInvoke() {
+		return nil
+	}
+	t := call.Call.StaticCallee()
+	if t == nil || t.Signature.Recv() == nil || len(call.Call.Args) != len(o.Params) {
+		return nil
+	}
+	// the receiver argument is a field of this receiver; the others are the parameters in order
+	for i := 1; i < len(call.Call.Args); i++ {
+		if call.Call.Args[i] != ssa.Value(o.Params[i]) {
+			return nil
+		}
+	}
+	okRecv := false
+	switch r := call.Call.Args[0].(type) {
+	case *ssa.UnOp:
+		if fa, isFA := r.X.(*ssa.FieldAddr); isFA && r.Op == token.MUL {
+			base := fa.X
+			if al, isAl := base.(*ssa.Alloc); isAl {
+				if sts := storesTo(al); len(sts) == 1 && sts[0].Val == ssa.Value(o.Params[0]) {
+					okRecv = true // the spill of a value receiver
+				}
+			} else if base == ssa.Value(o.Params[0]) {
+				okRecv = true
+			}
+		}
+	case *ssa.Field:
+		okRecv = r.X == ssa.Value(o.Params[0])
+	case *ssa.FieldAddr:
+		okRecv = r.X == ssa.Value(o.Params[0])
+	}
+	if !okRecv {
+		return nil
+	}
+	thinForwardMemo[o] = origin(t)
+	return origin(t)
 }
